@@ -112,6 +112,15 @@ ScanErrors(rr, apex) ==
 
 PrescanErrors(upd, apex) == UNION {ScanErrors(upd[i], apex) : i \in 1..Len(upd)}
 
+\* An update RR of the zone class with RDLENGTH 0 (rd = 0) that is not a meta type.  It is none of
+\* the forms of table 3.4.2.6; the prescan of 3.4.1 does not test RDLENGTH for the zone class and
+\* 3.4.2.2 literally adds the RR (empty RDATA).  The property is silent: a server may refuse the
+\* message with FORMERR (then nothing changes, like any prescan failure) or add the RR as it is --
+\* both are accepted, exactly for such messages.  What it may not do is answer FORMERR and keep a
+\* part of the update, in memory or in its journal (C14).
+EmptyAdd(rr)     == rr.c = ZCLASS /\ rr.rd = 0 /\ rr.t \notin MetaTypes /\ rr.t # "SOA"
+HasEmptyAdd(upd) == \E i \in 1..Len(upd) : EmptyAdd(upd[i])
+
 -----------------------------------------------------------------------------
 (* 3.4.2  Update section, one RR at a time.  Both operators are total on RRs *)
 (* that passed the prescan.                                                  *)
@@ -227,12 +236,14 @@ Accepts(S, m, apex, len) ==
 Outcomes(S, m, apex) ==
     LET pe == PrereqErrors(S, m.pre, apex)
         se == PrescanErrors(m.upd, apex)
-    IN  IF pe # {} /\ ~PrereqLenient(S, m.pre, apex) THEN Rejects(S, pe \cup se)
+        \* codes a rejection may carry: the prescan's, and FORMERR for an RR without RDATA
+        sr == se \cup (IF HasEmptyAdd(m.upd) THEN {"FORMERR"} ELSE {})
+    IN  IF pe # {} /\ ~PrereqLenient(S, m.pre, apex) THEN Rejects(S, pe \cup sr)
         ELSE IF pe # {} THEN
             \* lenient prerequisite: reject with NXRRSET, or go on as if satisfied
-            Rejects(S, pe \cup se) \cup (IF se # {} THEN {} ELSE Accepts(S, m, apex, TRUE))
-        ELSE IF se # {} THEN Rejects(S, se)
-        ELSE Accepts(S, m, apex, FALSE)
+            Rejects(S, pe \cup sr) \cup (IF se # {} THEN {} ELSE Accepts(S, m, apex, TRUE))
+        ELSE IF se # {} THEN Rejects(S, sr)
+        ELSE Accepts(S, m, apex, FALSE) \cup Rejects(S, sr)
 
 \* Does an observed reply / zone / serial realise outcome o from state S?
 SerialFits(S, o, ser) ==
